@@ -3,6 +3,7 @@ package staking
 // C05: supply conservation and share bookkeeping, one inductive step per operation.
 
 import (
+	"github.com/oasisprotocol/oasis-core/go/common/crypto/signature"
 	"github.com/oasisprotocol/oasis-core/go/common/quantity"
 	abciAPI "github.com/oasisprotocol/oasis-core/go/consensus/cometbft/api"
 	symx "github.com/oasisprotocol/oasis-core/go/internal/verifsymx"
@@ -252,5 +253,43 @@ func VerifC05AddRewards() {
 		}
 		symx.Assert(err == nil, "reward distribution failed (would halt the chain)")
 		return nil, err
+	})
+}
+
+// VerifC05Fees: the fee flow of one block. BeginBlock pays out the fees persisted by the
+// previous block (disburseFeesVQ: voters and this block's proposer), the block's transactions
+// pay fees into the accumulator, EndBlock splits them (disburseFeesP: proposer now, the rest
+// persisted for the next block). Supply is conserved over the block and neither call may
+// fail (both run in BeginBlock / EndBlock).
+//
+// Pre-state: any invariant-satisfying state, any last-block fees, any fee split weights that
+// pass the parameter sanity check (not all zero), 0..3 validators in the commit of which any
+// prefix voted (accounts B, E, A), proposer A or unknown.
+func VerifC05Fees() {
+	w := vNewWorld(abciAPI.ContextBeginBlock, false)
+	w.params.FeeSplitWeightPropose = *vQ("weightPropose")
+	w.params.FeeSplitWeightVote = *vQ("weightVote")
+	w.params.FeeSplitWeightNextPropose = *vQ("weightNextPropose")
+	symx.Assume(!(w.params.FeeSplitWeightPropose.IsZero() && w.params.FeeSplitWeightVote.IsZero() && w.params.FeeSplitWeightNextPropose.IsZero()))
+	numEligible := symx.Choose("numEligibleValidators", 4) // 0: the first block after genesis has an empty commit
+	numVoting := symx.Choose("numVoting", numEligible+1)
+	voters := []signature.PublicKey{w.pks[1], w.pks[2], w.pks[0]}[:numVoting]
+	var proposer *signature.PublicKey
+	if symx.Bool("proposerKnown") {
+		proposer = &w.pks[0]
+	}
+	blockFees := vQ("blockFees")
+	vStep(w, "fees", func() (*quantity.Quantity, error) {
+		err := w.app.disburseFeesVQ(w.ctx, w.state, proposer, numEligible, voters)
+		symx.Assert(err == nil, "disburseFeesVQ failed in BeginBlock (would halt the chain)")
+		// the block's transactions: A pays blockFees into the accumulator
+		a, _ := w.state.Account(w.ctx, w.addrs[0])
+		symx.Assume(a.General.Balance.Cmp(blockFees) >= 0)
+		_ = a.General.Balance.Sub(blockFees)
+		vMust(w.state.SetAccount(w.ctx, w.addrs[0], a), "SetAccount")
+		total := blockFees.Clone()
+		err = w.app.disburseFeesP(w.ctx, w.state, proposer, total)
+		symx.Assert(err == nil, "disburseFeesP failed in EndBlock (would halt the chain)")
+		return nil, nil
 	})
 }
